@@ -7,6 +7,7 @@ import Dnp3.Driver.Ffi
 import Dnp3.Driver.Db
 import Dnp3.Driver.Master
 import Dnp3.Driver.Pair
+import Dnp3.Driver.Attr
 open Dnp3 Dnp3.Driver
 
 partial def loop {σ : Type} (h : IO.FS.Stream) (out : IO.FS.Stream) (step : σ → String → σ × List String) (s : σ) : IO Unit := do
@@ -34,4 +35,5 @@ def main (args : List String) : IO UInt32 := do
   | ["ffi"] => loop stdin stdout ffiStep (); return 0
   | ["pair"] => loop stdin stdout pairStep {}; return 0
   | ["db"] => loop stdin stdout Dnp3.Driver.DbEngine.dbStep ({} : Dnp3.Driver.DbEngine.DbState); return 0
+  | ["attr"] => loop stdin stdout Dnp3.Driver.AttrEngine.attrStep ({} : Dnp3.Driver.AttrEngine.AState); return 0
   | _ => IO.eprintln "usage: dnp3model <engine>"; return 2
